@@ -539,7 +539,38 @@ def r194(ctx, rep, f, ev, cg, reach):
         "ddw0_tdt_lane_status_any_error": (lambda v: v & 0xAA != 0, "some lane field has its high bit set"),
         "ddw0_tdt_lane_status_any_warning": (lambda v: v & 0x55 != 0, "some lane field has its low bit set"),
     }
+    # decided on the whole function first — whatever its form (per-byte masks in a closure, one wide load and shifted
+    # masks, a loop): words with one faulty lane (28 lanes x 3 states), every pair of states on adjacent lanes (27 x 9, also
+    # across byte boundaries), no fault, and a fault-free word whose non-status bytes 7..8 are all ones
+    def lane_word(st):
+        bs = [0] * 10
+        for k_, s_ in st.items():
+            bs[k_ // 4] |= s_ << (2 * (k_ % 4))
+        return bs
+    lane_cases = [({}, None)] + [({k_: s_}, None) for k_ in range(28) for s_ in (1, 2, 3)] + \
+                 [({k_: a_, k_ + 1: b_}, None) for k_ in range(27) for a_ in (1, 2, 3) for b_ in (1, 2, 3)]
+    lane_oracle = {"ddw0_tdt_lane_status_any_fatal": lambda st: any(s_ == 3 for s_ in st.values()),
+                   "ddw0_tdt_lane_status_any_error": lambda st: any(s_ & 2 for s_ in st.values()),
+                   "ddw0_tdt_lane_status_any_warning": lambda st: any(s_ & 1 for s_ in st.values())}
     for fn, (pred, exp) in lane.items():
+        whole_wrong, undecided = [], 0
+        for st, _ in lane_cases + [("hi", None)]:
+            bs = lane_word(st) if st != "hi" else [0] * 7 + [0xFF, 0xFF, 0xE4]
+            want_ = lane_oracle[fn](st) if st != "hi" else False
+            try:
+                c_ = ev.as_cond(ev.call_fn(U + fn, [("array",) + tuple(Bits.const(x, 8) for x in bs)]))
+                k = {"true": True, "false": False}.get(c_.op)
+            except Exception:  # noqa
+                k = None
+            if k is None:
+                undecided += 1
+                break
+            if k != want_:
+                whole_wrong.append((st, k))
+        if not undecided:
+            rep.check(not whole_wrong, "R19.4", "R19.4|lane-mask|%s" % fn, "%s on whole words: %s (%d words evaluated: single faults, adjacent pairs, none, ones in bytes 7..8)" % (fn, exp, len(lane_cases) + 1), U + fn,
+                      "%s is not `%s`: (lane→state, result) %s" % (fn, exp, whole_wrong[:6]))
+            continue
         clo = U + fn + "::{closure#0}"
         wrong = []
         for v in range(256):
